@@ -4,12 +4,13 @@ import numpy as np
 from common import rng
 
 LEAN_MODULE = 'PGM.Properties.C12'
-LEAN_EXTRA = ['PGM.Properties.C12B']
+LEAN_EXTRA = ['PGM.Properties.C12B', 'PGM.Properties.C12G']
+TRANSLATORS = ('py2jt',)      # src/mbi/junction_tree.py -> PGM/Generated/JunctionTreeG.lean, tied to Model/JTree.lean in C12G
 TRUSTED = ['Lean 4.33 kernel', 'axioms: propext, Classical.choice, Quot.sound',
            'networkx contracts: find_cliques = all maximal cliques (compared per case with the model\'s Bron-Kerbosch), '
            'minimum_spanning_tree = some spanning tree (its output is checked by the Lean-verified checkJT, never assumed), '
            'topological_sort = some linear extension (its output is checked likewise)',
-           'hand model PGM/Model/JTree.lean tied to src/mbi/junction_tree.py by this correspondence run']
+           'hand model PGM/Model/JTree.lean tied to src/mbi/junction_tree.py by this correspondence run and by the translator tools/py2jt.py (PGM/Properties/C12G.lean: the regenerated definitions are proved to be the model, under the stated networkx / numpy contracts)']
 ASSUMPTIONS = ['explicit elimination orders are permutations of the domain attributes']
 RULE = ('quick: every labelled graph on 2-4 attributes (cliques = edges + isolated attributes) x every elimination order, plus seeded random '
         'clique sets (3-cliques, nested, duplicated, disconnected) on up to 8 attributes in modes None / int / permutation; thorough adds all '
